@@ -52,6 +52,11 @@ type g struct {
 	n     int
 	parts []string // partial paths created so far (may be rendered by later files)
 	libs  []*lib   // libraries created for partials (may be imported by several partials)
+	// noUsing: no using statements in the bodies being generated (scope
+	// typed-macro-other-format: the bodies will be written in a macro with an
+	// explicit result type in a file of another format, where the body of a
+	// using statement takes the format of the file)
+	noUsing bool
 }
 
 func (g *g) pick(s []string) string { return s[g.r.Intn(len(s))] }
@@ -146,6 +151,9 @@ func (g *g) body(e env, n, depth int) string {
 			}
 		case w < 80 && len(e.macros) > 0:
 			b.WriteString("{{ " + g.pick(e.macros) + " }}")
+		case w < 86 && depth < 2 && !g.noUsing:
+			// a using statement: its body is the value of itea
+			b.WriteString("{% show itea; using %}" + g.body(e, g.r.Intn(2), depth+2) + "{% end using %}")
 		default:
 			b.WriteString(g.atom(e.ext))
 		}
@@ -391,7 +399,12 @@ func (g *g) newLib(dir, ext string, abs bool) *lib {
 	l := &lib{name: fmt.Sprintf("%slib%d%s", dir, g.n, ext), ext: ext}
 	var calls []string
 	if g.r.Intn(2) == 0 {
-		l.vars = append(l.vars, fmt.Sprintf("{%% var K%d = %d %%}", g.n, 3+g.r.Intn(5)))
+		if g.r.Intn(2) == 0 {
+			// an initialiser with an observable call: it must run once per run
+			l.vars = append(l.vars, fmt.Sprintf("{%% var K%d = %d + once(\"K%d\") %%}", g.n, 3+g.r.Intn(5), g.n))
+		} else {
+			l.vars = append(l.vars, fmt.Sprintf("{%% var K%d = %d %%}", g.n, 3+g.r.Intn(5)))
+		}
 	}
 	k := 1 + g.r.Intn(3)
 	for i := 0; i < k; i++ {
@@ -634,7 +647,9 @@ func genCase(r *rand.Rand, fastPathScope, typedMacroScope, deadInitScope bool) c
 		if r.Intn(2) == 0 {
 			libDir = gg.pick(dirs)
 		}
+		gg.noUsing = typedMacroScope && libExt != rootExt
 		l := gg.newLib(libDir, libExt, libDir != rootDir)
+		gg.noUsing = false
 		gg.files[l.name] = l.source()
 		ref := gg.relPath(root, l.name)
 		form := r.Intn(4)
@@ -751,7 +766,33 @@ func genCase(r *rand.Rand, fastPathScope, typedMacroScope, deadInitScope bool) c
 		cd.B = side{Files: copyFiles(gg.files), Root: root}
 		cd.B.Files[root] = strings.Join(impB, "") + useB.String()
 		return cd
-	case rel < 94: // a page with code that never runs vs the page without it
+	case rel < 89: // using statement vs the macro it stands for
+		rootExt := formats[r.Intn(3)]
+		root := rootDir + "index" + rootExt
+		p := gg.newTarget(rootExt)
+		if r.Intn(2) == 0 {
+			// the rendered file has a using statement of its own
+			gg.files[p] += "{% show itea; using %}" + gg.atom(rootExt) + "{% end using %}" + gg.atom(rootExt)
+		}
+		ref := gg.relPath(root, p)
+		body := gg.body(env{file: root, ext: rootExt}, 1+r.Intn(2), 1)
+		x, y := gg.atom(rootExt), gg.atom(rootExt)
+		var ea, eb string
+		switch r.Intn(4) {
+		case 0:
+			ea, eb = "itea", "U_()"
+		case 1:
+			ea, eb = fmt.Sprintf("itea + render %q", ref), fmt.Sprintf("U_() + render %q", ref)
+		default:
+			ea, eb = fmt.Sprintf("render %q + itea", ref), fmt.Sprintf("render %q + U_()", ref)
+		}
+		cd := caseData{Rel: "using-vs-macro", Note: ea[:4] + " in " + rootExt}
+		cd.A = side{Files: copyFiles(gg.files), Root: root}
+		cd.A.Files[root] = x + "{% show " + ea + "; using %}" + body + "{% end using %}" + y
+		cd.B = side{Files: copyFiles(gg.files), Root: root}
+		cd.B.Files[root] = x + "{% macro U_ %}" + body + "{% end macro %}{% show " + eb + " %}" + y
+		return cd
+	case rel < 96: // a page with code that never runs vs the page without it
 		rootExt := gg.pick([]string{".html", ".html", ".md", ".txt", ".js"})
 		root := rootDir + "index" + rootExt
 		var live []string
